@@ -69,6 +69,12 @@ async fn verif_replay_hist_completion() {
         let w = w.with_step(|s| s.with_id("last").with_act(Act::irq(|a| a.with_key("z")).with_id("z")));
         shapes.push(("SCRIPT-ERR step catch over a parallel block, the script of one act throws", w));
     }
+    // a cancel aimed two steps back (the step after the cancelled act has already completed): whether it is refused or carried out, the invariant holds
+    // afterwards and the process ends once, with nothing open
+    shapes.push(("CANCEL of an act two steps back, then everything is answered", Workflow::new()
+        .with_step(|s| s.with_id("s1").with_act(Act::irq(|a| a.with_key("a1")).with_id("a1")))
+        .with_step(|s| s.with_id("s2").with_act(Act::irq(|a| a.with_key("a2")).with_id("a2")))
+        .with_step(|s| s.with_id("s3").with_act(Act::irq(|a| a.with_key("a3")).with_id("a3")))));
     for (name, wf) in shapes.into_iter() {
         let fail_first = name.starts_with("ERR");
         let script_err = name.starts_with("SCRIPT-ERR");
@@ -98,6 +104,7 @@ async fn verif_replay_hist_completion() {
             if let Some(root) = proc.root() { if root.state().is_completed() && proc.state() != root.state() { bad.push(format!("REPLAY-FAIL [{name}] {when}: process {} / root {}", proc.state(), root.state())); } }
         };
         let mut rounds = 0;
+        let mut cancelled = false;
         loop {
             // quiescence: the set of open interrupt acts is stable
             let mut open: Vec<Arc<crate::scheduler::Task>> = Vec::new();
@@ -110,6 +117,15 @@ async fn verif_replay_hist_completion() {
             }
             check(&format!("after {rounds} answer(s)"), &mut bad);
             if proc.state().is_completed() || open.is_empty() || rounds > 12 || script_err { break; }
+            if name.starts_with("CANCEL") && rounds == 2 && !cancelled {
+                cancelled = true;
+                if let Some(a1) = proc.task_by_nid("a1").first() {
+                    let _ = rt.do_action(&Action::new(&pid, &a1.id, EventAction::Cancel, &Vars::new()));
+                    tokio::time::sleep(std::time::Duration::from_millis(200)).await;
+                    check("after the cancel two steps back", &mut bad);
+                    continue;
+                }
+            }
             // answer ONE open act (the first by node id, so that runs are reproducible)
             open.sort_by(|a, b| a.node().id().cmp(b.node().id()));
             let t = open[0].clone();
